@@ -351,7 +351,8 @@ def check_c18(pid, tier):
               "TLC and the harness projection are trusted"])
 
 
-CHECKS["C18"] = check_c18
+# C18: simulation traces (moves inside whole simulations) + the buffer component
+EXTRA.setdefault("C18", []).append(buf_part)
 EXTRA.setdefault("C07", []).append(buf_part)
 CHECKS["C14"] = check_pure
 CHECKS["C16"] = check_pure
